@@ -76,7 +76,7 @@ class Check:
         return recs
 
     # ---- replay (G, X) --------------------------------------------------------------------
-    def replay(self, recs, variant, name, label=None, soft=None, soft_trace=None):
+    def replay(self, recs, variant, name, label=None, soft=None, soft_trace=None, env=None):
         """execute specified records on the implementation, compare every specified output.
         soft = {action: [fields]}: outputs whose derivation is implementation-defined (the specification transcribes it to be
         able to predict bytes, but the property does not promise those bytes).  If ONLY soft fields differ, the observed event is
@@ -84,7 +84,7 @@ class Check:
         post-condition on the observed output."""
         if not recs:
             raise Infra("no records to replay for " + name)
-        obs, rc, err = vlib.harness(self.bins[variant], recs)
+        obs, rc, err = vlib.harness(self.bins[variant], recs, env=env)
         if rc != 0 or len(obs) != len(recs):
             # a crash of the harness on a generated input: find the record
             idx = len(obs)
@@ -109,7 +109,7 @@ class Check:
             self.samples.append({"direction": "spec->impl", "variant": variant, "record": self.shorten(recs[len(recs) // 2])})
         if bad:
             # must reproduce on immediate re-run
-            again, _, _ = vlib.harness(self.bins[variant], [b for b in bad])
+            again, _, _ = vlib.harness(self.bins[variant], [b for b in bad], env=env)
             for b, o in zip(bad, again):
                 if vlib.sub_diff(b["spec_out"], o["out"]):
                     self.violation("%s on build '%s': specification and implementation disagree on %s" % (name, variant, sorted(b["diff"].keys())),
